@@ -6,3 +6,6 @@ import Bcder.Props.C12
 #print axioms Bcder.Props.C12.takeFrom_eq_spec
 #print axioms Bcder.Props.C12.tagOf_inj
 #print axioms Bcder.Props.C12.takeFromIf_eq_spec
+#print axioms Bcder.Props.C12.consts_universal
+#print axioms Bcder.Props.C12.consts_distinct
+#print axioms Bcder.Props.C12.low_tag_octets
